@@ -2,8 +2,8 @@
    Only statements here; proofs are in Proofs/Combine*.v.  The predicates are those evaluated by
    holds_C03 (Run/RunAdapt.v) on the implementation's observations: obs_eqb, apply_adj, apply_all, adjs_of. *)
 From Coq Require Import String List Bool ZArith.
-From NRI Require Import Base.Strs Base.Assoc Model.Types Model.Result Spec.Apply Run.RunAdapt
-  Proofs.KeyedProofs Proofs.CombineWf Proofs.CombineBase Proofs.CombineProofs Proofs.CombineCorollaries Proofs.CombineLastWriter Proofs.CombineWitness.
+From NRI Require Import Base.Strs Base.Assoc Model.Types Model.Result Model.Generate Spec.Apply Spec.GenSpec Run.RunAdapt
+  Proofs.KeyedProofs Proofs.CombineWf Proofs.CombineBase Proofs.CombineProofs Proofs.CombineCorollaries Proofs.CombineLastWriter Proofs.CombineViaGen Proofs.CombineWitness.
 Import ListNotations.
 
 (* For every original container, every number of plugins and every well-formed history (wf_create:
@@ -167,6 +167,32 @@ Example C03_last_writer_example :
   In (ex_mt "/x" "2") (a_mounts (adj_of (ex_R ex_A2))) /\
   (forall q, In q (adjs_of (skipn 2 ex_rps)) -> ~ names_mount "/x" q).
 Proof. exact ex_last_writer. Qed.
+
+(* C03_via_generator: "using the project's own OCI spec generator".  The MODEL of Generator.Adjust
+   (Model/Generate.v gen_adjust, tied to the real generator by corr_gen) applied ONCE to the combined reply
+   gives, on the observable projection, the same spec as the generator applied plugin by plugin in plugin order
+   (gen_seq = fold_left of gen_adjust), and the same CDI names.  Hypotheses, all boolean:
+   wf_create (as above); C13's wf_gen for the combined reply on the original spec and at every step of the
+   plugin-by-plugin run (seq_wf); memlimits_ok: no plugin gives a memory limit of 0 (or a non-integer one) —
+   the one value the generator reads as "no request" (W6).  The last hypothesis is an artefact of the proof
+   (docs/slices/combine.md): in a successful request each scalar field is set by one plugin only. *)
+Theorem C03_via_generator :
+  forall sp0 rps s,
+    wf_create (sp_c sp0) rps = true ->
+    snd (run_request (RCreate (sp_c sp0)) rps) = Ok s ->
+    wf_gen sp0 (s_adjust s) = true ->
+    seq_wf sp0 (adjs_of rps) = true ->
+    memlimits_ok (adjs_of rps) = true ->
+    obs_eqb (sp_c (gen_adjust (s_adjust s) sp0)) (sp_c (fold_left (fun sp a => gen_adjust a sp) (adjs_of rps) sp0)) = true /\
+    sp_cdi (gen_adjust (s_adjust s) sp0) = sp_cdi (fold_left (fun sp a => gen_adjust a sp) (adjs_of rps) sp0).
+Proof. exact via_generator. Qed.
+Print Assumptions C03_via_generator.
+
+Example C03_via_generator_example :
+  wf_create (sp_c vg_sp0) vg_rps = true /\
+  exists s, snd (run_request (RCreate (sp_c vg_sp0)) vg_rps) = Ok s /\ wf_gen vg_sp0 (s_adjust s) = true /\
+            seq_wf vg_sp0 (adjs_of vg_rps) = true /\ memlimits_ok (adjs_of vg_rps) = true.
+Proof. exact vg_example. Qed.
 
 (* every clause of wf_create is necessary: inputs violating one clause on which the request succeeds and
    the combined adjustment does NOT give the sequential result (W7 per family, W7= and W7') *)
